@@ -13,7 +13,3 @@ Lemma sweep_block3 : sweep 13 98304 = true.
 Proof. vm_cast_no_check (eq_refl true). Qed.
 Lemma sweep_block4 : sweep 8 106496 = true.
 Proof. vm_cast_no_check (eq_refl true). Qed.
-
-(* the same, as the single boolean of Civil.v *)
-Lemma sweep_all_true : sweep_all = true.
-Proof. vm_cast_no_check (eq_refl true). Qed.
